@@ -5,7 +5,7 @@ From V Require Import Model.BillingAgg.
 Import ListNotations.
 Definition gen_arg_chain_billing : arg_chain := [(TIsNone, RNoAgg); (TLowerEq "none"%string, RNoAgg); (TEq "monthly"%string, RFreq "MS"%string); (TEq "bimonthly"%string, RFreq "2MS"%string)].
 Definition gen_arg_else_billing : err := ValueErr.
-Definition gen_agg_table_billing : agg_table := [("season"%string, FFirst, false); ("temperature"%string, FMean, false); ("observed"%string, FSum, true); ("predicted"%string, FSum, false); ("predicted_unc"%string, FRss, false); ("heating_load"%string, FSum, false); ("cooling_load"%string, FSum, false); ("model_split"%string, FFirst, false); ("model_type"%string, FFirst, false)].
+Definition gen_agg_table_billing : agg_table := [("cooling_load"%string, FSum, false); ("heating_load"%string, FSum, false); ("model_split"%string, FFirst, false); ("model_type"%string, FFirst, false); ("observed"%string, FSum, true); ("predicted"%string, FSum, false); ("predicted_unc"%string, FRss, false); ("season"%string, FFirst, false); ("temperature"%string, FMean, false)].
 Definition gen_arg_chain_weighted : arg_chain := [(TIsNone, RNoAgg); (TLowerEq "none"%string, RNoAgg); (TEq "monthly"%string, RFreq "MS"%string); (TEq "bimonthly"%string, RFreq "2MS"%string)].
 Definition gen_arg_else_weighted : err := ValueErr.
-Definition gen_agg_table_weighted : agg_table := [("season"%string, FFirst, false); ("temperature"%string, FMean, false); ("observed"%string, FSum, true); ("predicted"%string, FSum, false); ("predicted_unc"%string, FRss, false); ("heating_load"%string, FSum, false); ("cooling_load"%string, FSum, false); ("model_split"%string, FFirst, false); ("model_type"%string, FFirst, false)].
+Definition gen_agg_table_weighted : agg_table := [("cooling_load"%string, FSum, false); ("heating_load"%string, FSum, false); ("model_split"%string, FFirst, false); ("model_type"%string, FFirst, false); ("observed"%string, FSum, true); ("predicted"%string, FSum, false); ("predicted_unc"%string, FRss, false); ("season"%string, FFirst, false); ("temperature"%string, FMean, false)].
